@@ -85,6 +85,20 @@ pub struct EditSpace {
     pub max_chars: usize,
 }
 
+/// a `&'static str` for a replacement text (the menu is finite, so is the leak)
+fn intern(s: &str) -> &'static str {
+    use std::collections::HashMap;
+    use std::sync::{Mutex, OnceLock};
+    static POOL: OnceLock<Mutex<HashMap<String, &'static str>>> = OnceLock::new();
+    let mut g = POOL.get_or_init(|| Mutex::new(HashMap::new())).lock().unwrap();
+    if let Some(v) = g.get(s) {
+        return v;
+    }
+    let leaked: &'static str = Box::leak(s.to_string().into_boxed_str());
+    g.insert(s.to_string(), leaked);
+    leaked
+}
+
 fn fresh(original: &str) -> BufState {
     let mut buf = InputBuffer::new();
     buf.reset().push_str(original);
@@ -104,9 +118,23 @@ fn apply(s: &BufState, batch: &[Edit]) -> Option<BufState> {
     let mut n = s.clone();
     let edits: Vec<(std::ops::Range<usize>, String)> =
         batch.iter().map(|e| (offs[e.from]..offs[e.to], e.with.clone())).collect();
+    // the three ways of recording a replacement (owned string, borrowed string, single character)
+    // must be equivalent: which one is used varies with position, batch number and replacement
+    let depth = s.history.len();
     let r = n.buf.with_editor(move |_, mut ed| {
         for (r, w) in edits {
-            ed.replace_own(r, w);
+            let special = (r.start + depth + w.chars().count()) % 2 == 0;
+            let mut cs = w.chars();
+            match (special, cs.next(), cs.next()) {
+                (true, Some(c), None) => ed.replace_char(r, c),
+                (true, Some(c), Some(_)) if (r.end + depth) % 2 == 0 => {
+                    let mut rest = w.chars();
+                    rest.next();
+                    ed.replace_char_iter(r, c, rest)
+                }
+                (true, _, _) => ed.replace_ref(r, intern(&w)),
+                _ => ed.replace_own(r, w),
+            }
         }
         Ok(ed)
     });
